@@ -148,6 +148,31 @@ class Ledger(Base):
                 else:
                     self.late_msgs.append([ev['id'], sorted(new)])
 
+        elif k == 'MSG_OUT' and not ev.get('transient') and \
+                not ev.get('forced') and \
+                ev['status_before'] == 'waiting' and \
+                ev['outputs_after'] == ev['outputs_before'] and \
+                self._output_of(ev) not in ev['outputs_before'] and \
+                ev.get('submit_num') in (None, ev.get('cur_num')) and \
+                ev['message'] not in (
+                    'submitted', 'started', 'succeeded', 'failed',
+                    'submission failed') and \
+                not ev['message'].startswith(('failed/', 'vacated/')):
+            # the same with a retry lined up: the job's failure was
+            # processed first (task waiting for its retry), the output
+            # message - received late, or reported by a poll - is ignored
+            self.late_msgs.append([ev['id'], ev['message']])
+            self.n_ignored_on_retry = getattr(
+                self, 'n_ignored_on_retry', 0) + 1
+
+    def _output_of(self, ev):
+        name = ev['id'].split('/', 1)[1]
+        texts = (self.case.get('messages') or {}).get(name) or {}
+        for o, t in texts.items():
+            if t == ev['message']:
+                return o
+        return ev['message']
+
     def summary(self, drv):
         return {'late_polled_outputs_on_removed_tasks': self.late_polled,
                 'n_late_polled': len(self.late_polled),
